@@ -64,3 +64,55 @@ func (db *DB) ProjectToMinMax(q *Q) bool {
 	})
 	return found
 }
+
+// ClassUnionOrderFixed: a sort over a union whose two sources each fix the
+// leading sort column to a constant (extend c = const / where c is const),
+// to different constants: the merge strategy accepts an order that satisfies
+// the sort only within each source (union.go mergeIndexes checks the
+// requirement against each source's fixed values, not the union's), so rows
+// of the two sources interleave. Seen where no temp index can be used
+// (cursor mode).
+const ClassUnionOrderFixed = "union-merge-order-from-per-source-fixed"
+
+func fixedConst(q *Q, c string) (Val, bool) {
+	switch q.Op {
+	case "extend":
+		for i, col := range q.Cols {
+			if col == c && q.Exprs[i].Op == "const" {
+				return q.Exprs[i].Val, true
+			}
+		}
+		return fixedConst(q.Src, c)
+	case "where":
+		var conj func(e *E) (Val, bool)
+		conj = func(e *E) (Val, bool) {
+			if e.Op == "and" {
+				for _, a := range e.Args {
+					if v, ok := conj(a); ok {
+						return v, true
+					}
+				}
+			}
+			if e.Op == "is" && e.Args[0].Op == "col" && e.Args[0].Col == c && e.Args[1].Op == "const" {
+				return e.Args[1].Val, true
+			}
+			return Empty, false
+		}
+		if v, ok := conj(q.Exprs[0]); ok {
+			return v, true
+		}
+		return fixedConst(q.Src, c)
+	}
+	return Empty, false
+}
+
+// UnionOrderFixed reports whether the query is a sort over a union whose
+// sources fix the leading sort column to different constants.
+func UnionOrderFixed(q *Q) bool {
+	if q.Op != "sort" || q.Src.Op != "union" || len(q.Cols) == 0 {
+		return false
+	}
+	v1, ok1 := fixedConst(q.Src.Src, q.Cols[0])
+	v2, ok2 := fixedConst(q.Src.Src2, q.Cols[0])
+	return ok1 && ok2 && v1 != v2
+}
